@@ -293,7 +293,41 @@ Proof. intros Ht Hs. unfold client_forward. now rewrite Ht, Hs. Qed.
 Lemma client_forward_untraced c out : c_trace c = None -> client_forward c out = Some out.
 Proof. intro Ht. unfold client_forward. now rewrite Ht. Qed.
 
+Lemma client_stack_keeps ls c t s :
+  c_trace c = Some t -> c_span c = Some s -> client_stack ls c ([t], [s]) = Some ([t], [s]).
+Proof.
+  intros Ht Hs. induction ls as [|l r IH]; simpl; [reflexivity|].
+  destruct l; [|exact IH]. now rewrite (client_forward_traced c _ t s Ht Hs).
+Qed.
+
+Lemma client_stack_traced ls c out t s :
+  has_traced ls = true -> c_trace c = Some t -> c_span c = Some s ->
+  client_stack ls c out = Some ([t], [s]).
+Proof.
+  intros Hin Ht Hs. induction ls as [|l r IH]; simpl in *; [discriminate|].
+  destruct l; simpl in Hin.
+  - rewrite (client_forward_traced c out t s Ht Hs). now apply client_stack_keeps.
+  - now apply IH.
+Qed.
+
+Lemma client_stack_untraced ls c out : c_trace c = None -> client_stack ls c out = Some out.
+Proof.
+  intro Ht. induction ls as [|l r IH]; simpl; [reflexivity|].
+  destruct l; [|exact IH]. now rewrite (client_forward_untraced c out Ht).
+Qed.
+
+Lemma thm_client_stack_transparent l1 l2 c out :
+  client_stack (l1 ++ CTransparent :: l2) c out = client_stack (l1 ++ l2) c out.
+Proof.
+  revert out. induction l1 as [|l r IH]; intro out; simpl; [reflexivity|].
+  destruct l; [|apply IH]. destruct (client_forward c out); [apply IH|reflexivity].
+Qed.
+
 Definition newspan (h : hop) : bytes := q_newspan (h_req h).
+
+(* what the chain theorems ask of every service: its span generator returns a
+   non-empty id and the client stack it calls through contains the traced client *)
+Definition hop_ok (h : hop) : Prop := newspan h <> [] /\ has_traced (h_client h) = true.
 
 (* the relation the chain theorem establishes: every server of the chain received
    trace id t, received its caller's span as ParentSpanID and recorded it as its
@@ -318,16 +352,16 @@ Qed.
 
 Lemma chain_linked hops : forall i t p,
   first_value (fst i) = t -> t <> [] -> first_value (snd i) = p -> p <> [] ->
-  Forall (fun h => newspan h <> []) hops ->
+  Forall hop_ok hops ->
   linked t p (chain hops i) hops.
 Proof.
   induction hops as [|h rest IH]; intros i t p Ht Hne Hp Hpne Hok; simpl; [exact I|].
-  inversion Hok as [|? ? Hh Hrest]; subst.
+  inversion Hok as [|? ? [Hh Hcl] Hrest]; subst.
   rewrite (hop_ctx_inbound h i (first_value (fst i)) eq_refl Hne).
   set (c := with_span _ _ _ _).
   assert (Hct : c_trace c = Some (first_value (fst i))) by reflexivity.
   assert (Hcs : c_span c = Some (newspan h)) by reflexivity.
-  rewrite (client_forward_traced c (h_out h) _ _ Hct Hcs).
+  rewrite (client_stack_traced (h_client h) c (h_out h) _ _ Hcl Hct Hcs).
   repeat split; auto; try (unfold c; now apply with_span_parent); try (apply IH; auto).
 Qed.
 
@@ -378,12 +412,12 @@ Qed.
 
 (* the first server of a chain: fresh request context, arbitrary inbound headers *)
 Lemma chain_head h hops i t :
-  q_base (h_req h) = empty_ctx -> Forall (fun h => newspan h <> []) (h :: hops) ->
+  q_base (h_req h) = empty_ctx -> Forall hop_ok (h :: hops) ->
   c_trace (hop_ctx h i) = Some t ->
   t <> [] /\ c_span (hop_ctx h i) = Some (newspan h) /\
   exists rest, chain (h :: hops) i = (i, hop_ctx h i) :: rest /\ linked t (newspan h) rest hops.
 Proof.
-  intros Hb Hok Ht. inversion Hok as [|? ? Hh Hrest]; subst.
+  intros Hb Hok Ht. inversion Hok as [|? ? [Hh Hcl] Hrest]; subst.
   pose proof (trace_step_shape (h_kind h) (h_opts h) (new_sampler (h_opts h)) (set_inbound (h_req h) i)) as Hshape.
   cbv zeta in Hshape.
   change (r_ctx (fst (trace_step (h_kind h) (h_opts h) (new_sampler (h_opts h)) (set_inbound (h_req h) i))))
@@ -396,7 +430,7 @@ Proof.
   - rewrite Hc in Ht. simpl in Ht. injection Ht as <-.
     split; [exact Hne|]. split; [rewrite Hc; reflexivity|].
     cbn [chain]. cbv zeta.
-    rewrite (client_forward_traced (hop_ctx h i) (h_out h) t' (newspan h));
+    rewrite (client_stack_traced (h_client h) (hop_ctx h i) (h_out h) t' (newspan h) Hcl);
       [|rewrite Hc; reflexivity|rewrite Hc; reflexivity].
     eexists; split; [reflexivity|].
     apply chain_linked; auto.
@@ -487,7 +521,7 @@ Qed.
 
 Lemma thm_chain_shares_trace (h : hop) (hops : list hop) (i : thdrs) (t : bytes) :
   q_base (h_req h) = empty_ctx ->
-  Forall (fun h => q_newspan (h_req h) <> []) (h :: hops) ->
+  Forall (fun h => q_newspan (h_req h) <> [] /\ has_traced (h_client h) = true) (h :: hops) ->
   c_trace (hop_ctx h i) = Some t ->
   let cs := chain (h :: hops) i in
   length cs = S (length hops) /\
@@ -529,7 +563,7 @@ Qed.
 
 Lemma thm_chain_entered_with_trace (hops : list hop) (i : thdrs) (t p : bytes) :
   first_value (fst i) = t -> t <> [] -> first_value (snd i) = p -> p <> [] ->
-  Forall (fun h => q_newspan (h_req h) <> []) hops ->
+  Forall (fun h => q_newspan (h_req h) <> [] /\ has_traced (h_client h) = true) hops ->
   let cs := chain hops i in
   length cs = length hops /\
   Forall (fun ic => c_trace (snd ic) = Some t) cs /\
